@@ -7,6 +7,12 @@ let () =
   Ad_buffer.init ();
   Ad_callable.init ();
   Ad_retry.init ();
+  Ad_caster.init ();
+  Ad_workers.init ();
+  Ad_worker.init ();
+  Ad_attempt.init ();
+  Ad_context.init ();
+  Ad_pubsub.init ();
   let fn_cases = ref 0 and fn_bad = ref 0 in
   let file = Sys.argv.(1) in
   let ic = open_in file in
